@@ -374,7 +374,10 @@ pub fn verif_send_best_move_to_gui(board: &BoardState) {
 pub fn read_from_gui() -> String {
     let stdin = io::stdin();
     let mut buffer = String::new();
-    stdin.lock().read_line(&mut buffer).unwrap();
+    if stdin.lock().read_line(&mut buffer).unwrap() == 0 {
+        // end of input, the GUI is gone and nothing more can ever arrive
+        process::exit(0);
+    }
     buffer = clean_input(&buffer);
     info!("ENGINE << {}", buffer);
     buffer
